@@ -57,7 +57,7 @@ class Monitor(explore.BaseMonitor):
         if tuple(d) != self.deltas:
             for side, k, delta in d:
                 if (side, k, delta) not in self.deltas:
-                    cls = ('RX:' + ev[2]) if ev[0] == 'RX' else ('REST:' + ev[1]) if ev[0] == 'REST' else c01.abstract_event(w, ev)[0]
+                    cls = ('RX:' + ev[2]) if ev[0] == 'RX' else ('REST:' + ev[1]) if ev[0] == 'REST' else ('MQ:' + ev[1]) if ev[0] == 'MQ' else c01.abstract_event(w, ev)[0]
                     v.append(('C18|%s %s off by %+d|first at %s' % (side, k, delta, cls),
                               {'reported': body, 'counted': {'send': sent, 'receive': recv}}))
         self.deltas = tuple(d)
@@ -76,7 +76,17 @@ def requests():
         '@send_rr': ('POST', '/v1/peer/<ip>/send/route-refresh', {'afi': 1, 'safi': 1}),
         '@send_bin': ('POST', '/v1/peer/<ip>/send/bin_update', {'binary_data': upd.hex()}),
         '@send_bin2': ('POST', '/v1/peer/<ip>/send/bin_update', {'binary_data': (upd + upd).hex()}),
+        # an update the agent cannot encode (prefix without a length): must be refused and not counted
+        '@send_unencodable': ('POST', '/v1/peer/<ip>/send/update',
+                              {'attr': {'1': 0, '2': [[2, [65001]]], '3': '10.0.0.1'}, 'nlri': ['10.9.9.9']}),
     }
+
+
+def queued():
+    good = {'attr': {1: 0, 2: [(2, [65001])], 3: '10.0.0.1'}, 'nlri': ['10.7.0.0/16'], 'withdraw': []}
+    bad = {'attr': {1: 0, 2: [(2, [65001])], 3: '10.0.0.1'}, 'nlri': ['10.9.9.9'], 'withdraw': []}
+    return {'@mq:good_update': {'type': 'update', 'msg': good}, '@mq:bad_update': {'type': 'update', 'msg': bad},
+            '@mq:notification': {'type': 'notification', 'msg': {'error': 6, 'sub_error': 4, 'data': b''}}}
 
 
 class Harness(c01.Harness):
@@ -92,6 +102,8 @@ class Harness(c01.Harness):
         self.messages['KA_LONG'] = wire.frame(wire.KEEPALIVE, b'\x00')
         self.requests = requests()
         self.messages.update(self.requests)
+        self.queued = queued()
+        self.messages.update(self.queued)
 
     def rx_alphabet(self, w, mon):
         return [k for k in self.messages if not k.startswith('@')]
@@ -100,6 +112,8 @@ class Harness(c01.Harness):
         evs = c01.Harness.menu(self, w, mon)
         if w.live() <= 1 and w.fsm.protocol is not None:
             evs = evs + [('REST', k[1:]) for k in self.requests]
+            if w.handler.inter_mq.empty():
+                evs = evs + [('MQ', k[4:]) for k in self.queued]
         return evs
 
 
@@ -110,6 +124,7 @@ DEVK = {'quick': 1, 'thorough': 2}
 
 def run(tier, seed):
     c01.CONFIGS, c01.DEPTH, c01.DEVK = CONFIGS, DEPTH, DEVK
+    c01.DEV_KINDS, c01.QUICK_DEV = ('coop', 'lateclose'), (1, None)      # the statistics menu is 3x larger than C01's
     return c01.run(tier, seed, prop=PROP, harness=Harness())
 
 
